@@ -101,6 +101,9 @@ def gen_modules_graph(rng, gid):
         imports = [j for j in range(i) if rng.random() < 0.6]
         if i > 0 and not imports:
             imports = [rng.randrange(i)]
+        rng.shuffle(imports)
+        if len(imports) >= 2 and rng.random() < 0.4:
+            imports.append(imports[0])      # a module imported again after another one: [m1, m2, m1]
         mods.append({"i": i, "name": "m%d" % i, "imports": imports, "classes": []})
     nodes = {}     # (module index, name) -> [resolved super nodes]
 
@@ -141,7 +144,7 @@ def gen_modules_graph(rng, gid):
     return {"id": "g%d" % gid, "style": "modules", "classes": [], "enums": [],
             "modules": [{"name": m["name"], "imports": ["m%d" % j for j in m["imports"]], "classes": m["classes"]} for m in mods],
             "subjects": subjects, "property_names": ["q_m%d_%s" % key for key in nodes],
-            "method_names": [], "type_names": [], "variant_names": [],
+            "method_names": [], "type_names": [], "variant_names": [], "resolve_names": pool + ["Absent"],
             "nodes": {"m%d/%s" % k: ["m%d/%s" % x for x in v2] for k, v2 in nodes.items()}}
 
 
@@ -161,6 +164,15 @@ def check_modules_job(v, job, r, stats):
                 seen.append(x)
                 q += nodes[x]
         return seen
+    # a name is resolved from a module through the module's own import list and through an import stack pushed module by
+    # module in the same order: the two constructions must give the same class (whatever the shadowing rule is)
+    for key, verdict in sorted(r.get("resolution", {}).items()):
+        stats["resolution"] = stats.get("resolution", 0) + 1
+        if verdict == "differ":
+            m = next(x for x in job["modules"] if x["name"] == key.split("/")[0])
+            viol("import-stack-disagreement", "name %s resolves differently through the import list %r of module %s than through the same "
+                 "modules imported one by one" % (key.split("/")[1], m["imports"], m["name"]))
+            return
     for i, a in enumerate(subj):
         if r["kinds"][i] != "class":
             viol("subject-kind", "%s resolves as %s" % (a, r["kinds"][i]))
